@@ -171,6 +171,8 @@ type c19World struct {
 	denoms  []string // reward denominations watched
 	macc    sdk.AccAddress
 	lockers bool
+	x       *c19X // external-programme fixtures (c19_ext_test.go), nil in the plain gauge worlds
+	sfSeen  map[uint64]bool
 }
 
 func c19Addr(i int) sdk.AccAddress {
@@ -232,7 +234,15 @@ func (w *c19World) setPrice(assetID uint64, twa uint64, active bool) {
 
 // c19NewWorld: one app, four priced assets, pool 1 (the master pool of the gauges) and pools 2, 3, 4 (child pools).
 func c19NewWorld(t *testing.T, tr *Trace, reserve int64, decimals int64, prices [4]uint64) *c19World {
-	w := &c19World{t: t, tr: tr, acctIx: map[string]int{}, denoms: []string{"urew", "urewb", "weth"}}
+	return c19NewWorldOpt(t, tr, reserve, decimals, prices, "")
+}
+
+// swapDenom != "": the denomination swap fees are distributed in (default ucmdx, which no pool of these worlds trades)
+func c19NewWorldOpt(t *testing.T, tr *Trace, reserve int64, decimals int64, prices [4]uint64, swapDenom string) *c19World {
+	w := &c19World{t: t, tr: tr, acctIx: map[string]int{}, denoms: []string{"urew", "urewb", "weth"}, sfSeen: map[uint64]bool{}}
+	if swapDenom != "" {
+		w.denoms = append(w.denoms, swapDenom)
+	}
 	w.app = chain.Setup(t, false)
 	t0 := time.Date(2024, 1, 1, 0, 0, 0, 0, time.UTC)
 	w.ctx = w.app.BaseApp.NewContext(false, tmproto.Header{Height: 1, Time: t0})
@@ -242,6 +252,9 @@ func c19NewWorld(t *testing.T, tr *Trace, reserve int64, decimals int64, prices 
 	for i, d := range []string{"uasset1", "uasset2", "uasset3", "uasset4"} {
 		w.must(w.app.AssetKeeper.AddAssetRecords(w.ctx, assettypes.Asset{Name: alphaName(i), Denom: d, Decimals: sdk.NewInt(decimals), IsOnChain: true, IsOraclePriceRequired: true}))
 		w.setPrice(uint64(i+1), prices[i], true)
+	}
+	if swapDenom != "" {
+		w.must(w.app.LiquidityKeeper.UpdateGenericParams(w.ctx, w.appID, []string{"SwapFeeDistrDenom"}, []string{swapDenom}))
 	}
 	params, err := w.app.LiquidityKeeper.GetGenericParams(w.ctx, w.appID)
 	w.must(err)
@@ -259,10 +272,18 @@ func c19NewWorld(t *testing.T, tr *Trace, reserve int64, decimals int64, prices 
 		w.pools = append(w.pools, pool)
 	}
 	tr.Line("gauge.begin", i64(int64(rewardstypes.MinimumEpochDuration)))
-	for _, g := range w.app.Rewardskeeper.GetAllGauges(w.ctx) {
-		tr.Line("gauge.sfgauge", u(g.Id), g.DepositAmount.Denom, i64(int64(g.TriggerDuration)), i64(w.ctx.BlockTime().UnixNano()))
-	}
+	w.noteSfGauges()
 	return w
+}
+
+// announce swap-fee gauges created since the last call (pool creation creates one, with its epoch record)
+func (w *c19World) noteSfGauges() {
+	for _, g := range w.app.Rewardskeeper.GetAllGauges(w.ctx) {
+		if g.ForSwapFee && !w.sfSeen[g.Id] {
+			w.sfSeen[g.Id] = true
+			w.tr.Line("gauge.sfgauge", u(g.Id), g.DepositAmount.Denom, i64(int64(g.TriggerDuration)), i64(w.ctx.BlockTime().UnixNano()))
+		}
+	}
 }
 
 // deposit real coins into a pool (executed by the liquidity EndBlocker) and return the pool coins received
@@ -561,42 +582,6 @@ func (w *c19World) computeDist(meta rewardstypes.LiquidtyGaugeMetaData, coin sdk
 	return d
 }
 
-type c19ExtSnap struct {
-	rec    rewardstypes.LockerExternalRewards
-	count  uint64
-	nets   []string
-	recv   []string
-	owners []sdk.AccAddress
-	total  string
-}
-
-func (w *c19World) extSnaps() []c19ExtSnap {
-	var out []c19ExtSnap
-	for _, e := range w.app.Rewardskeeper.GetExternalRewardsLockers(w.ctx) {
-		s := c19ExtSnap{rec: e}
-		ep, _ := w.app.Rewardskeeper.GetEpochTime(w.ctx, e.EpochId)
-		s.count = ep.Count
-		lk, _ := w.app.LockerKeeper.GetLockerLookupTable(w.ctx, e.AppMappingId, e.AssetId)
-		s.total = lk.DepositedAmount.String()
-		for _, id := range lk.LockerIds {
-			l, found := w.app.LockerKeeper.GetLocker(w.ctx, id)
-			if !found {
-				continue
-			}
-			s.nets = append(s.nets, l.NetBalance.String())
-			a, _ := sdk.AccAddressFromBech32(l.Depositor)
-			s.owners = append(s.owners, a)
-			ix, known := w.acctIx[a.String()]
-			if !known {
-				ix = 9999
-			}
-			s.recv = append(s.recv, strconv.Itoa(ix))
-		}
-		out = append(out, s)
-	}
-	return out
-}
-
 func (w *c19World) balSnap() map[string]sdkmath.Int {
 	m := map[string]sdkmath.Int{}
 	for i, a := range w.accts {
@@ -613,6 +598,7 @@ func (w *c19World) block(gap time.Duration) {
 	w.ctx = w.ctx.WithBlockHeight(w.ctx.BlockHeight() + 1).WithBlockTime(w.ctx.BlockTime().Add(gap))
 	now := w.ctx.BlockTime()
 	tr.Line("gauge.block", i64(now.UnixNano()))
+	w.sfInputs()
 	for _, g := range w.app.Rewardskeeper.GetAllGauges(w.ctx) {
 		if g.ForSwapFee || !g.IsActive || now.Before(g.StartTime) || g.TriggeredCount == g.TotalTriggers || !g.DepositAmount.Amount.IsUint64() {
 			continue
@@ -633,7 +619,8 @@ func (w *c19World) block(gap time.Duration) {
 		}
 		tr.Line("gauge.dist", u(g.Id), u(alloc), d.mode, c19csvS(d.mpos), child, d.outcome, c19csvS(d.recv), c19csvS(d.rewards))
 	}
-	exBefore := w.extSnaps()
+	w.xSnapshot()
+	xBefore := w.xCounts()
 	balBefore := w.balSnap()
 	gaugesBefore := map[uint64]uint64{}
 	for _, g := range w.app.Rewardskeeper.GetAllGauges(w.ctx) {
@@ -643,25 +630,7 @@ func (w *c19World) block(gap time.Duration) {
 	rewards.BeginBlocker(w.ctx, abci.RequestBeginBlock{}, w.app.Rewardskeeper)
 
 	balAfter := w.balSnap()
-	exAfter := w.extSnaps()
-	for i, b := range exBefore {
-		a := exAfter[i]
-		if a.count != b.count { // the programme paid its day
-			daysLeft := b.rec.DurationDays - int64(b.count)
-			var paid []string
-			for _, o := range b.owners {
-				ix := w.acctIx[o.String()]
-				key := b.rec.TotalRewards.Denom + ":" + strconv.Itoa(ix)
-				paid = append(paid, balAfter[key].Sub(balBefore[key]).String())
-			}
-			tr.Line("gauge.extpay", u(b.rec.Id), b.rec.AvailableRewards.Amount.String(), i64(daysLeft), b.total, c19csvS(b.nets), c19csvS(b.recv), c19csvS(paid))
-			tr.Count("ext:pay")
-		}
-		if b.rec.IsActive && !a.rec.IsActive {
-			tr.Line("gauge.extoff", u(b.rec.Id))
-			tr.Count("ext:off")
-		}
-	}
+	liquidity.BeginBlocker(w.ctx, w.app.LiquidityKeeper, w.app.AssetKeeper) // every 150 blocks: accumulated swap fees → SwapFeeDistrDenom
 	tr.Line("gauge.run", "ok")
 
 	var es []string
@@ -674,6 +643,17 @@ func (w *c19World) block(gap time.Duration) {
 	for _, g := range w.app.Rewardskeeper.GetAllGauges(w.ctx) {
 		gs = append(gs, strings.Join([]string{u(g.Id), g.DepositAmount.Denom, g.DepositAmount.Amount.String(), g.DistributedAmount.Amount.String(),
 			u(g.TriggeredCount), u(g.TotalTriggers), strconv.FormatBool(g.IsActive), strconv.FormatBool(g.ForSwapFee), i64(int64(g.TriggerDuration)), i64(g.StartTime.UnixNano())}, ":"))
+		if g.ForSwapFee {
+			if g.DepositAmount.IsPositive() {
+				tr.Count("sfgauge:holds-coins")
+			}
+			if g.TriggeredCount > gaugesBefore[g.Id] {
+				tr.Count("sfgauge:triggered")
+			}
+			if g.DistributedAmount.IsPositive() {
+				tr.Count("sfgauge:has-distributed")
+			}
+		}
 		if !g.ForSwapFee {
 			switch {
 			case g.TriggeredCount > gaugesBefore[g.Id]:
@@ -689,14 +669,7 @@ func (w *c19World) block(gap time.Duration) {
 		}
 	}
 	tr.Line("gauge.gauges", strings.Join(gs, ";"))
-	var xs []string
-	for _, s := range exAfter {
-		xs = append(xs, strings.Join([]string{u(s.rec.Id), s.rec.TotalRewards.Denom, s.rec.AvailableRewards.Amount.String(), strconv.FormatBool(s.rec.IsActive)}, ":"))
-	}
-	if len(xs) == 0 {
-		xs = []string{"-"}
-	}
-	tr.Line("gauge.exts", strings.Join(xs, ";"))
+	w.xRecords(xBefore)
 	var bs []string
 	for _, c := range w.app.BankKeeper.GetAllBalances(w.ctx, w.macc) {
 		bs = append(bs, c.Denom+":"+c.Amount.String())
@@ -742,22 +715,7 @@ func (w *c19World) setupLockers(nets []int64) {
 }
 
 func (w *c19World) createExt(creator int, denom string, amount sdkmath.Int, days int64, fundIt bool) bool {
-	from := w.acct(creator)
-	if fundIt {
-		w.fund(from, sdk.NewCoins(sdk.NewCoin(denom, amount)))
-	}
-	funds := w.app.BankKeeper.GetBalance(w.ctx, from, denom).Amount
-	err := w.deliver(&rewardstypes.ActivateExternalRewardsLockers{AppMappingId: 1, AssetId: 1, TotalRewards: sdk.Coin{Denom: denom, Amount: amount}, DurationDays: days, Depositor: from.String(), MinLockupTimeSeconds: 1})
-	outcome, eid := "err", uint64(0)
-	if err == nil {
-		outcome = "ok"
-		eid = w.app.Rewardskeeper.GetExternalRewardsLockersID(w.ctx)
-		w.tr.Count("ext:create-ok")
-	} else {
-		w.tr.Count("ext:create-err")
-	}
-	w.tr.Line("gauge.extnew", u(eid), denom, amount.String(), funds.String(), outcome)
-	return err == nil
+	return w.createProg(c19ProgSpec{kind: "L", creator: creator, denom: denom, amount: amount, days: days, minLock: 1, fundIt: fundIt, asset: 1})
 }
 
 // find the pool-coin amount whose redeemable quote amount is exactly x (the real CalculateXYFromPoolCoin is monotone)
@@ -1077,6 +1035,10 @@ func c19Lifecycle(t *testing.T, tr *Trace, rng *Rng, seqNo int) {
 			s.pool = 77
 		case 7:
 			s.deposit = sdk.NewInt(-5)
+		case 8:
+			s.master, s.children = true, []uint64{s.pool} // a child pool equal to the master pool
+		case 9:
+			s.master, s.children = true, []uint64{2, 99} // a child pool that does not exist
 		}
 		if fundIt && s.deposit.IsPositive() {
 			w.fund(w.acct(s.creator), sdk.NewCoins(sdk.NewCoin(s.denom, s.deposit)))
@@ -1189,6 +1151,10 @@ func TestC19(t *testing.T) {
 	c19Witness1e12(t, tr)
 	c19WitnessZeroEpochs(t, tr)
 	c19WitnessExtOverpay(t, tr)
+	c19WitnessLendValueAsAmount(t, tr)
+	c19WitnessLendTruncatedTotal(t, tr)
+	c19LendSameBlockCase(t, tr)
+	c19WitnessSfLeak(t, tr)
 	c19GuardCase(t, tr)
 	c19MasterChildCase(t, tr)
 	c19Split(tr, rng)
@@ -1198,4 +1164,20 @@ func TestC19(t *testing.T) {
 	for s := 0; s < n; s++ {
 		c19Lifecycle(t, tr, rng, s)
 	}
+	c19XWorlds(t, tr, rng)
+	c19SfWorlds(t, tr, rng)
+}
+
+// developer aid (not part of the check): only the external-programme corpus and worlds
+func TestC19XOnly(t *testing.T) {
+	tr := OpenTrace(t, "c19x.trace")
+	defer tr.Close(t)
+	rng := NewRng(seed())
+	c19WitnessExtOverpay(t, tr)
+	c19WitnessLendValueAsAmount(t, tr)
+	c19WitnessLendTruncatedTotal(t, tr)
+	c19LendSameBlockCase(t, tr)
+	c19WitnessSfLeak(t, tr)
+	c19XWorlds(t, tr, rng)
+	c19SfWorlds(t, tr, rng)
 }
